@@ -894,7 +894,7 @@ func (ad *Adversary) Build(t *core.Tape, op string, hist []IssuedMsg) (*Attack, 
 		if m == nil {
 			return nil, false
 		}
-		kind := t.Int(6, "adv.enc.kind")
+		kind := t.Int(7, "adv.enc.kind")
 		d := parse(m)
 		root := el(d)
 		a := firstByTag(root, "Assertion")
@@ -934,6 +934,21 @@ func (ad *Adversary) Build(t *core.Tape, op string, hist []IssuedMsg) (*Attack, 
 			}
 			pt = elString(view)
 			atk.Detail = "genuine-signed-reencrypted"
+		case 6: // a wrapper element with the genuine (signed) assertion somewhere inside
+			wrap := []string{"saml:Advice", "saml:Evidence", "samlp:Extensions", "saml:AttributeValue"}[t.Int(4, "adv.enc.wrapper")]
+			inner := elString(view)
+			if i := strings.Index(inner, "?>"); strings.HasPrefix(inner, "<?xml") && i > 0 {
+				inner = inner[i+2:]
+			}
+			pt = `<` + wrap + ` xmlns:saml="` + NSAssertion + `" xmlns:samlp="` + NSProtocol + `">`
+			if t.Bool("adv.enc.wrapper.deep") {
+				pt += `<saml:Advice>` + inner + `</saml:Advice>`
+			} else {
+				pt += inner
+			}
+			pt += `</` + wrap + `>`
+			atk.Detail = "genuine-inside-wrapper:" + wrap
+			atk.EncNotAssertion = true
 		case 3: // not an assertion at all
 			pt = `<saml:Advice xmlns:saml="` + NSAssertion + `"><saml:NameID>mallory</saml:NameID></saml:Advice>`
 			atk.Detail = "non-assertion"
